@@ -31,7 +31,7 @@ NAMES = ['x', 'y', 'k', 'v', 'n', 'w', 'nl']
 def strings():
     out = ['']
     alpha = 'ab=\n' if THOROUGH else 'ab='
-    top = 4 if THOROUGH else 2
+    top = 3 if THOROUGH else 2
     for n in range(1, top + 1):
         out += [''.join(p) for p in itertools.product(alpha, repeat=n)]
     if not THOROUGH:
